@@ -2,7 +2,8 @@
 From Dastard Require Import Common.ZX Common.CaseLib C06.Model C06.Spec.
 
 Record case := { c_cfg : config; c_rs0 : rstate; c_w0 : list (bool * bool * bool); c_hist : list (op * obs);
-                 c_fault : option faultobs (* fault stream: what was seen after a final STOP under an I/O fault *) }.
+                 c_fault : option faultobs (* fault stream: what was seen after a final STOP under an I/O fault *);
+                 c_fstart : option (wcreq * (rstate * list (Z * Z * Z) * bool)) (* ... and after the START that followed *) }.
 
 Definition reqobs_eqb (a b : reqobs) : bool :=
   Bool.eqb (o_ok a) (o_ok b) && rstate_eqb (o_rs a) (o_rs b) && writers_eqb (o_writers a) (o_writers b) &&
@@ -39,6 +40,14 @@ Definition verdict (c : case) : Z * Z :=
                             Bool.eqb (fo_stored f) (fo_stored fm) && Bool.eqb (fo_active f) (fo_active fm)
                 end in
   let fcheck := match c_fault c with None => true | Some f => fault_stop_ok f end in
+  let z3_eqb (a b : Z * Z * Z) := (fst (fst a) =? fst (fst b)) && (snd (fst a) =? snd (fst b)) && (snd a =? snd b) in
+  let fagree := fagree && match c_fstart c with
+                | None => true
+                | Some (r, o) => let m := fault_start_obs (fst (run s0 ops)) r in
+                    rstate_eqb (fst (fst o)) (fst (fst m)) && list_eqb z3_eqb (snd (fst o)) (snd (fst m)) &&
+                    Bool.eqb (snd o) (snd m)
+                end in
+  let fcheck := fcheck && match c_fstart c with None => true | Some (r, o) => fault_start_ok (c_proj cfg) o end in
   let d := if (d =? -1) && negb fagree then zlen (c_hist c) else d in
   (verdict_code (d =? -1) (C06_check (c_proj cfg) (c_used cfg) (c_rs0 c) (c_w0 c) (c_hist c) && fcheck), d).
 
@@ -59,13 +68,19 @@ Definition PbX (ch n : Z) : op * obs := (PUB ch n, OPanic).
 Definition mk (proj : list bool) (used : list (Z * Z)) (mapn base : Z) (r0 : rstate)
            (w0 : list (bool * bool * bool)) (h : list (op * obs)) : case :=
   {| c_cfg := {| c_proj := proj; c_used := used; c_map := mapn; c_base := base |};
-     c_rs0 := r0; c_w0 := w0; c_hist := h; c_fault := None |}.
+     c_rs0 := r0; c_w0 := w0; c_hist := h; c_fault := None; c_fstart := None |}.
 Definition mkF (proj : list bool) (used : list (Z * Z)) (mapn base : Z) (r0 : rstate)
            (w0 : list (bool * bool * bool)) (h : list (op * obs))
-           (fw : list (bool * bool * bool)) (fopen : Z) (fstored factive : bool) : case :=
+           (fw : list (bool * bool * bool)) (fopen : Z) (fstored factive : bool)
+           (fs : option (wcreq * (rstate * list (Z * Z * Z) * bool))) : case :=
   {| c_cfg := {| c_proj := proj; c_used := used; c_map := mapn; c_base := base |};
      c_rs0 := r0; c_w0 := w0; c_hist := h;
-     c_fault := Some {| fo_writers := fw; fo_open := fopen; fo_stored := fstored; fo_active := factive |} |}.
+     c_fault := Some {| fo_writers := fw; fo_open := fopen; fo_stored := fstored; fo_active := factive |};
+     c_fstart := fs |}.
+Definition NoFS : option (wcreq * (rstate * list (Z * Z * Z) * bool)) := None.
+Definition FS (s : list Z) (path : Z) (b22 b3 boff : bool) (r : rstate) (pubs : list (Z * Z * Z)) (others : bool)
+  : option (wcreq * (rstate * list (Z * Z * Z) * bool)) :=
+  Some ({| rq_str := s; rq_path := path; rq22 := b22; rq3 := b3; rqoff := boff |}, (r, pubs, others)).
 (* a case that killed the harness process before any observation could be rendered *)
 Definition crashed : case :=
   mk [] [] (-1) 0 (init_rs 0) [] [PbX 0 0].
